@@ -54,13 +54,20 @@ def spec(tier, cap_k=2, names=None):
     )
 
 
+LIT_MATCHERS = ["c01_datatype_matcher", "c01_language_tag_matcher", "c01_kind_matcher_all_kinds", "c01_triple_matcher", "c01_triple_matcher_kinds"]
+US_LIT = [(r"^<?.*T2 as .*Term>::(eq|cmp|hash)", 1, "rec?"), (r"c02_terms::same$", 1, "rec?")]
+
+
 def spec_matchers(tier):
     HA = os.path.join(VERIF, "harness", "api")
     hs = [Harness(n, unwind=5, timeout=300, mem_gb=8, note="every shipped matcher type with symbolic content against its reference predicate and the constant() contract")
           for n in ("c01_term_matchers", "c01_graph_name_matchers")]
+    hs += [Harness(n, unwind=8, unwindset=US_LIT, extra_cbmc=["--unwindset", "memcmp.0:60"], timeout=400, mem_gb=10,
+                   note="datatype / language-tag / quoted-triple / kind / closure matchers on the all-kinds term T2 against reference predicates")
+           for n in LIT_MATCHERS]
     return kprop.KSpec(
         package="sophia_api", crate_dir="api",
-        harness_files={"api": [os.path.join(HA, "vt.rs"), os.path.join(HA, "c01_matchers.rs")]},
+        harness_files={"api": [os.path.join(HA, "vt.rs"), os.path.join(HA, "c01_matchers.rs"), os.path.join(HA, "c02_terms.rs"), os.path.join(HA, "c01_matchers_lit.rs")]},
         harnesses=hs, jobs=2,
         encoded=["TermMatcher / GraphNameMatcher impls: Any, Option<T>, [T;N], &[T], Not, TermKind, MatcherRef, Option<Option<T>>, [GraphName<T>;N], &[GraphName<T>], Option<TermKind>, TermMatcherGn"],
         bounds=["symbolic terms over 8 codes (IRIs and blank nodes), symbolic graph names incl. the default graph"],
